@@ -99,7 +99,14 @@ theorem All_splitDoc (n : Nat) (d : Doc) (h : All strQ d) :
         simp [hp.1, this.1, this.2]
       · simp [hp.2]
 @[simp] theorem All_verticaSplice (hint : Str) (d : Doc) (h : All strQ d) : All strQ (verticaSplice hint d) := by
-  simp [verticaSplice, (All_splitDoc 7 d h).1, (All_splitDoc 6 d h).2]
+  simp [verticaSplice, (All_splitDoc _ d h).1, (All_splitDoc _ d h).2]
+
+@[simp] theorem All_hinted (fl : QFlags) (d : Doc) (h : All strQ d) : All strQ (hinted fl d) := by
+  unfold hinted; split
+  · split
+    · exact All_verticaSplice _ d h
+    · exact h
+  · exact h
 
 end leaves
 
